@@ -165,12 +165,31 @@ def build_jobs(ctx):
         rng.shuffle(p)
         A = A[np.ix_(p, p)]
         jobs.append(dict(fn=FN, src="clique+path", A=A.tolist(), light=1))
+    # hubs whose degree is a multiple of 256 (seed round 7): a sum over a row of an 8-bit adjacency matrix
+    # wraps to 0 exactly there, so the hub looks isolated to code that accumulates in the argument's type;
+    # 258..290 nodes: hub + 256 (or 255 / 257) leaves, a short path hanging off one leaf, 0..2 isolated nodes,
+    # shuffled numbering.  diversify() is overridden: these are typed uint8 / int8 / bool.
+    for k in range(3 if ctx.quick else 12):
+        deg = [256, 256, 255, 257][k % 4]
+        tail, iso = rng.randint(1, 6), rng.randint(0, 2)
+        n = 1 + deg + tail + iso
+        A = np.zeros((n, n))
+        A[0, 1:deg + 1] = A[1:deg + 1, 0] = 1
+        for x in range(deg, deg + tail):
+            A[x, x + 1] = A[x + 1, x] = 1
+        p = list(range(n))
+        rng.shuffle(p)
+        A = A[np.ix_(p, p)]
+        jobs.append(dict(fn=FN, src="hub-256", A=A.astype(int).tolist(), light=1,
+                         dtype=["uint8", "int8", "uint8", "bool"][k % 4], keep_dtype=1))
     return jobs
 
 
 def diversify(ctx, jobs):
     rng = random.Random(ctx.seed + 77)
     for j in jobs:
+        if j.get("keep_dtype"):
+            continue
         if rng.random() < 0.45:
             j["dtype"] = rng.choice(["int", "int32", "bool", "uint8", "float32"])
         if rng.random() < 0.25:
